@@ -24,11 +24,17 @@ impl Node {
         for (k, v) in env {
             std::env::set_var(k, v);
         }
+        // a node that never initialises its raft group (no leader): what a node sees during a leader switch
+        let leaderless = env.iter().any(|(k, v)| k == "RNACOS_RAFT_AUTO_INIT" && v == "false");
         let runner = actix_rt::System::new();
         let app = runner.block_on(async {
             let sys_config = Arc::new(AppSysConfig::init_from_env());
             let factory_data = config_factory(sys_config).await.expect("config_factory");
             let app = build_share_data(factory_data).expect("build_share_data");
+            if leaderless {
+                tokio::time::sleep(Duration::from_millis(400)).await;
+                return app;
+            }
             // wait until this single node leads its raft group
             for _ in 0..400 {
                 if app.raft.current_leader().await == Some(1) {
